@@ -71,6 +71,8 @@ fn apply(rng: &mut Rng, tree: &HNode, tr: Tr, scale: f64) -> Applied {
                     // only used on trees whose weights are small multiples of 1/8, so that the
                     // scaled weights and all their partial sums are exact
                     Tr::WeightsTinyUnit => (2.0f64).powi(-520) * (2.0f64).powi(520 - rng.range(1030, 1060) as i32),
+                    // scaling down could flush a subnormal weight to zero: only upwards then
+                    Tr::WeightsPow2 if outs.iter().any(|(w, _)| *w < 1e-290) => (2.0f64).powi(rng.range(0, 5) as i32),
                     Tr::WeightsPow2 => (2.0f64).powi(rng.range(0, 10) as i32 - 5),
                     Tr::WeightsAny => *rng.pick(&[1.0, 0.3, 3.0, 0.1, 7.0, 1.0 / 3.0]),
                     _ => 1.0,
@@ -185,6 +187,14 @@ pub fn run(ctx: &mut Ctx) {
             }
         }
         let ap = apply(rng, &tree, tr, orig.flat.max_abs_payoff());
+        let mut ap = ap;
+        let min_prob = orig.flat.chance_probs.iter().flatten().cloned().fold(f64::INFINITY, f64::min);
+        if min_prob < 1e-290 && matches!(tr, Tr::PayoffPow2 | Tr::WeightsPow2 | Tr::WeightsTinyUnit) {
+            // with chance probabilities in or below the subnormal range, reach x payoff products are
+            // rounded on the subnormal grid, which a power-of-two scaling shifts: equal within
+            // rounding (margin rule), not bit for bit
+            ap.exact = false;
+        }
         let trn = format!("{:?}", tr);
         let new = match Prepared::new(&ap.tree) {
             Ok(p) => p,
